@@ -1057,3 +1057,129 @@ Proof.
 Qed.
 
 End Agreement.
+
+(* ------------------------------------------------------------------ *)
+(** Part 5: [drain_outputs] terminates: the fuel given by [drain_fuel] always
+    suffices, so every event ends with the manager's queue empty. *)
+
+Definition ow (lo : lout) : nat :=
+  match snd lo with SelectBackend _ _ _ => 12 | OpenUpstream _ _ => 5 | _ => 1 end.
+Fixpoint qw (q : list lout) : nat := match q with [] => 0 | x :: q' => ow x + qw q' end.
+
+Lemma qw_app a b : qw (a ++ b) = qw a + qw b.
+Proof. induction a; cbn; lia. Qed.
+
+Lemma qw_le q : qw q <= 12 * length q.
+Proof. induction q as [|x q IH]; cbn [qw length]; [lia|]. unfold ow. destruct (snd x); lia. Qed.
+
+Lemma qw_reschedule m : qw (snd (reschedule m)) <= 1.
+Proof. unfold reschedule. destruct (opt_N_eqb _ _); cbn; [lia|]. destruct (min_deadline _); cbn; lia. Qed.
+
+Lemma qw_close_flow m id : qw (snd (close_flow m id)) <= 3.
+Proof.
+  unfold close_flow. destruct (sget (m_flows m) id) as [f|]; [|cbn; lia].
+  destruct (phase_eqb (f_phase f) Closing); [cbn; lia|].
+  match goal with |- context [reschedule ?x] => pose proof (qw_reschedule x) as H; destruct (reschedule x) as [m2 o] end.
+  cbn in *. lia.
+Qed.
+
+Lemma qw_finish m id td : qw (snd (finish m id td)) <= 3.
+Proof. unfold finish. destruct td; [apply qw_close_flow|]. pose proof (qw_reschedule m). lia. Qed.
+
+Section Termination.
+Variable hash : bool -> addr -> N.
+
+Lemma qw_resolved m now id bid a : qw (snd (step hash m now (IResolved id bid a))) <= 10.
+Proof.
+  cbn [step]. unfold on_backend_resolved.
+  destruct (sget (m_flows m) id) as [f|]; [|cbn; lia].
+  destruct (negb (phase_eqb (f_phase f) Awaiting)); [cbn; lia|].
+  cbn [set_flow_live f_pending]. destruct (f_pending f) as [payload|].
+  - destruct (take_pp _) as [pp f4].
+    match goal with |- context [finish ?x ?y ?z] => pose proof (qw_finish x y z) as H; destruct (finish x y z) as [m2 o] end.
+    cbn in *. lia.
+  - match goal with |- context [reschedule ?x] => pose proof (qw_reschedule x) as H; destruct (reschedule x) as [m2 o] end.
+    cbn in *. lia.
+Qed.
+
+Lemma qw_abort m now id : qw (snd (step hash m now (IAbort id))) <= 3.
+Proof. cbn [step]. apply qw_close_flow. Qed.
+
+Lemma sh_q_call sh now i : sh_q (call_mgr hash sh now i) = sh_q sh ++ snd (step hash (sh_mgr sh) now i).
+Proof. unfold call_mgr. destruct (step hash (sh_mgr sh) now i). reflexivity. Qed.
+
+(** one iteration strictly decreases the weight of the queue *)
+Lemma process_weight tk sh sched now e lo q' :
+  sh_q sh = q' ->
+  qw (sh_q (fst (fst (process hash tk sh sched now e lo)))) < ow lo + qw q'.
+Proof.
+  intros Eq. destruct lo as [l x]. unfold process, ow. cbn [snd fst].
+  destruct x as [id cl key|id b|d p|d p|d|mm|id|r]; cbn [fst].
+  - destruct (e_resolve e) as [[bid a]|]; cbn [fst]; rewrite sh_q_call, qw_app, Eq.
+    + pose proof (qw_resolved (sh_mgr sh) now id bid a). lia.
+    + pose proof (qw_abort (sh_mgr sh) now id). lia.
+  - unfold on_open_upstream. destruct (negb (e_connect e)); cbn [fst].
+    + rewrite sh_q_call, qw_app, Eq. pose proof (qw_abort (sh_mgr sh) now id). lia.
+    + destruct (sinsert _ tt). cbn. rewrite Eq. lia.
+  - unfold on_send_to_backend.
+    destruct (match sh_iff sh with Some f => Some f | None => _ end) as [f|]; [|cbn; rewrite Eq; lia].
+    destruct (sock_of_flow _ f) as [s0|]; [|cbn; rewrite Eq; lia].
+    destruct (sock_of_tok _ (s_tok s0)) as [s|]; [|cbn; rewrite Eq; lia].
+    destruct (match s_q s with Some q => negb (wq_is_empty q) | None => false end).
+    + destruct (s_q s) as [q|]; [|cbn; rewrite Eq; lia]. destruct (wq_push q d p). cbn. rewrite Eq. lia.
+    + destruct (next_outcome sched) as [o s']. destruct o; cbn [fst]; try (rewrite Eq; lia).
+      destruct (wq_push _ d p). cbn. rewrite Eq. lia.
+  - unfold on_send_to_client. destruct (negb (wq_is_empty _)).
+    + destruct (wq_push _ d p). cbn. rewrite Eq. lia.
+    + destruct (next_outcome sched) as [o s']. destruct o; cbn [fst]; try (rewrite Eq; lia).
+      destruct (wq_push _ d p). cbn. rewrite Eq. lia.
+  - cbn. rewrite Eq. lia.
+  - rewrite Eq. lia.
+  - unfold on_close_flow. destruct (sock_of_flow (sh_socks sh) id); cbn; rewrite Eq; lia.
+  - rewrite Eq. lia.
+Qed.
+
+Lemma drain_completes tk fuel : forall sh sched now e,
+  qw (sh_q sh) <= fuel -> sh_q (fst (fst (drain hash tk fuel sh sched now e))) = [].
+Proof.
+  induction fuel as [|fuel IH]; intros sh sched now e Hw; cbn.
+  - destruct (sh_q sh) as [|x q]; [reflexivity|]. cbn in Hw. unfold ow in Hw. destruct (snd x); lia.
+  - destruct (sh_q sh) as [|lo q'] eqn:Eq; [exact Eq|].
+    pose proof (process_weight tk (with_mgr_q sh (sh_mgr sh) q') sched now e lo q' eq_refl) as H1.
+    destruct (process hash tk (with_mgr_q sh (sh_mgr sh) q') sched now e lo) as [[sh1 sched1] w1]. cbn [fst] in *.
+    cbn in Hw. specialize (IH sh1 sched1 now e ltac:(lia)).
+    destruct (drain hash tk fuel sh1 sched1 now e) as [[sh2 sched2] w2]. exact IH.
+Qed.
+
+Lemma full_drain_completes tk sh sched now e :
+  sh_q (fst (fst (full_drain hash tk sh sched now e))) = [].
+Proof. unfold full_drain, drain_fuel. apply drain_completes. pose proof (qw_le (sh_q sh)). lia. Qed.
+
+(** every event ends at rest *)
+Lemma shell_step_at_rest tk sh now e sched ev :
+  sh_q sh = [] -> sh_q (fst (shell_step hash tk sh now e sched ev)) = [].
+Proof.
+  intros Hq. destruct ev as [src p|tok p|tok| | | |i]; cbn [shell_step].
+  - match goal with |- context [full_drain hash tk ?s sched now e] =>
+      pose proof (full_drain_completes tk s sched now e) as H; destruct (full_drain hash tk s sched now e) as [[sh2 s2] w] end.
+    exact H.
+  - destruct (sock_of_tok (sh_socks sh) tok) as [s|]; [|exact Hq].
+    match goal with |- context [full_drain hash tk ?s0 sched now e] =>
+      pose proof (full_drain_completes tk s0 sched now e) as H; destruct (full_drain hash tk s0 sched now e) as [[sh2 s2] w] end.
+    exact H.
+  - destruct (sock_of_tok (sh_socks sh) tok) as [s|]; [|exact Hq]. destruct (s_q s) as [q|]; [|exact Hq].
+    destruct (wq_drain_items (wq_items q) sched) as [[rest sent] s']. exact Hq.
+  - destruct (wq_drain_items (wq_items (sh_clq sh)) sched) as [[rest sent] s']. exact Hq.
+  - match goal with |- context [full_drain hash tk ?s0 sched now e] =>
+      pose proof (full_drain_completes tk s0 sched now e) as H; destruct (full_drain hash tk s0 sched now e) as [[sh2 s2] w] end.
+    exact H.
+  - match goal with |- context [full_drain hash tk ?s0 sched now e] =>
+      pose proof (full_drain_completes tk s0 sched now e) as H; destruct (full_drain hash tk s0 sched now e) as [[sh2 s2] w] end.
+    exact H.
+  - destruct i; try exact Hq;
+    match goal with |- context [full_drain hash tk ?s0 sched now e] =>
+      pose proof (full_drain_completes tk s0 sched now e) as H; destruct (full_drain hash tk s0 sched now e) as [[sh2 s2] w] end;
+    exact H.
+Qed.
+
+End Termination.
